@@ -148,6 +148,10 @@ class KGUndefined:
     def __repr__(self):
         return ":undefined"
 
+    def __reduce__(self):
+        # :undefined is recognised by identity: unpickling (IPC, key-value store) must yield the singleton
+        return "KLONG_UNDEFINED"
+
     def __str__(self):
         return ":undefined"
 
